@@ -210,10 +210,16 @@ class Core:
         t0 = time.time()
         s = z3.Solver()
         s.set('timeout', self.feas_timeout)
-        # quantified facts are dropped here: fewer hypotheses can only keep more paths alive (sound)
-        s.add([p for p in st.pc if not _has_quant(p)])
+        # stage 1: quantified subformulas are replaced by unconstrained booleans (weaker, hence sound)
+        s.add([_strip_quant(p) for p in st.pc])
         r = s.check()
         self.stats['feas_calls'] += 1
+        if r != z3.unsat and any(_has_quant(p) for p in st.pc):
+            # stage 2: the full path condition with a short budget; anything but unsat keeps the path
+            s2 = z3.Solver()
+            s2.set('timeout', 150)
+            s2.add(st.pc)
+            r = s2.check()
         self.stats['feas_s'] += time.time() - t0
         return r != z3.unsat
 
@@ -249,6 +255,7 @@ class Core:
 
 
 _QC = {}
+_KEEP = []
 
 
 def _has_quant(t):
@@ -269,4 +276,22 @@ def _has_quant(t):
         if z3.is_app(x):
             todo.extend(x.children())
     _QC[k] = r
+    _KEEP.append(t)
     return r
+
+
+_SQ = {}
+
+
+def _strip_quant(t):
+    if not _has_quant(t):
+        return t
+    if z3.is_quantifier(t):
+        k = t.get_id()
+        if k not in _SQ:
+            _SQ[k] = (t, z3.FreshConst(z3.BoolSort(), 'q'))   # keep t alive so the id stays unique
+        return _SQ[k][1]
+    if z3.is_app(t):
+        ch = [_strip_quant(x) for x in t.children()]
+        return t.decl()(*ch)
+    return t
